@@ -330,7 +330,7 @@ pub fn run(args: &Args) -> i32 {
     if g.crashes == 0 && !g.faulty { programs.retain(|(p, _)| !all_programs.iter().any(|(q, _)| q == p)); }
     if map_faulty || g.faulty {
       // C18 (and one group of C17): every resource dependency uses the error-injecting checker (= Exact while its failure flag is clear).
-      for (p, _) in programs.iter_mut() {
+      for (p, cl) in programs.iter_mut() {
         for st in p.bodies.iter_mut().flatten() {
           st.op = match st.op {
             Op::Read(r, _) => Op::Read(r, RC::Faulty),
@@ -339,7 +339,12 @@ pub fn run(args: &Args) -> i32 {
             o => o,
           };
         }
+        // the mapping changes what coarse read checkers observe: classify the mapped program again
+        *cl = classify(p);
       }
+      programs.retain(|(_, cl)| in_slice(cl, gslice));
+      let mut seen_mapped = std::collections::BTreeSet::new();
+      programs.retain(|(p, _)| seen_mapped.insert(p.clone()));
     }
     let mut gcfg = cfg.clone();
     gcfg.depth = g.depth;
